@@ -195,8 +195,8 @@ def _is_future_import_first(import_from):
 def _iter_definition_exprs_from_lists(exprlist):
     def check_expr(child):
         if child.type == 'atom':
+            testlist_comp = child.children[1]
             if child.children[0] == '(':
-                testlist_comp = child.children[1]
                 if testlist_comp.type == 'testlist_comp':
                     yield from _iter_definition_exprs_from_lists(testlist_comp)
                     return
